@@ -162,6 +162,37 @@ def encoder_side(ctx, enc_re, enc_ho, msg, cell, honour_variants):
         except Exception:
             ctx.count('enc_honour_shorter_refused')
         ctx.evaluated(('enc-honour-shorter', sec, k) + tuple(cell), True)
+    # ---- editions <= 3: a section honoured with an ODD declared length (one surplus octet).  The sections after it
+    # start on an odd octet offset; each is still padded to an even number of ITS OWN octets
+    if msg.edition <= 3:
+        for sec in (1, 2, 4):
+            if sec not in natural:
+                continue
+            lengths = dict(natural)
+            lengths[sec] = natural[sec] + 1
+            # reference: the natural message with one zero octet appended to that section, its length and the total + 1
+            st, ln = fr.sections[sec][0], natural[sec]
+            refb = bytearray(msg.bytes[:st + ln] + b'\0' + msg.bytes[st + ln:])
+            refb[st:st + 3] = (ln + 1).to_bytes(3, 'big')
+            refb[4:7] = (len(msg.bytes) + 1).to_bytes(3, 'big')
+            ref = bytes(refb)
+            sp = dict(spec, honour=dict(section=sec, declared=lengths[sec], natural=natural[sec], odd=True))
+            for later, lname in ((lengths, 'later-exact'), ({k: (v if k <= sec else 0) for k, v in lengths.items()}, 'later-computed')):
+                for tv in (len(msg.bytes) + 1, 0):
+                    try:
+                        out = enc_ho.process(json.dumps(with_lengths(fj, msg, later, tv))).serialized_bytes
+                    except Exception as e:
+                        ctx.violate('enc/honour/odd-longer-refused:%s/section%d/%s' % (type(e).__name__, sec, lname),
+                                    'edition %d, section %d declared %d (odd, one surplus octet), %s: refused: %r'
+                                    % (msg.edition, sec, lengths[sec], lname, e), sp, exc=e)
+                        continue
+                    ctx.count('enc_honour_odd_surplus')
+                    ctx.evaluated(('enc-honour-odd', sec, lname, tv == 0) + tuple(cell), True)
+                    if structural(ctx, out, msg, sp, 'honour') and out != ref:
+                        ctx.violate('enc/honour/odd-surplus-output-differs/section%d/%s' % (sec, lname),
+                                    'edition %d with section %d declared one octet longer (odd): output differs from the zero-filled '
+                                    'reference whose later sections are padded to their own even extent' % (msg.edition, sec),
+                                    sp, expected=ref.hex(), observed=out.hex())
     # wrong total with natural lengths
     for delta in (-1, 1, 7):
         try:
@@ -228,6 +259,36 @@ def decoder_side(ctx, dec, msg, cell, surplus, trailer):
         ctx.violate('dec/values-differ/%s' % ('surplus' if nz else 'plain'),
                     'decoded %s differ with surplus %r: %r' % (d[1], surplus, jsonable(d[2:])), spec)
     return m
+
+
+def decoder_wrong_total(ctx, dec, msg, cell):
+    """the message's bytes are the span from BUFR to 7777 (what the sections occupy) whatever follows - also when the
+    total-length field of section 0 does not agree with that span (the decoder does not use that field in a full decode)"""
+    data = _data_octets(msg)
+    b = R.build_frame(msg.edition, msg.meta, msg.ids, msg.nsub, msg.compressed, data, msg.sec2, None)
+    for delta, trailer in ((1, b'\r\r\n\x03'), (3, b'BUFRxyz7777'), (-1, b''), (-4, b'\0\0'), (2, b'')):
+        bb = bytearray(b)
+        bb[4:7] = (len(b) + delta).to_bytes(3, 'big')
+        bb = bytes(bb)
+        spec = dict(side='decoder-wrong-total', ids=msg.ids, edition=msg.edition, delta=delta, trailer=trailer.hex(), cell=cell,
+                    hex=(bb + trailer).hex())
+        ctx.evaluated(('dec-wrong-total', delta, trailer.hex()) + tuple(cell), True)
+        ctx.count('dec_wrong_total')
+        try:
+            m = dec.process(bb + trailer)
+        except Exception as e:
+            # refusing an inconsistent total is a legitimate reading as well: not judged
+            ctx.count('dec_wrong_total_refused')
+            continue
+        if m.serialized_bytes != bb:
+            ctx.violate('dec/serialized-bytes/inconsistent-total/%s' % ('over' if delta > 0 else 'under'),
+                        'total length field off by %+d: serialized_bytes has %d bytes, the span BUFR..7777 has %d'
+                        % (delta, len(m.serialized_bytes or b''), len(bb)), spec)
+            continue
+        d = diff_message(m, msg.subsets)
+        if d:
+            ctx.violate('dec/values-differ/inconsistent-total', 'decoded %s differ when the total length field is off by %+d: %r'
+                        % (d[1], delta, jsonable(d[2:])), spec)
 
 
 def decoder_short(ctx, dec, msg, cell):
@@ -329,6 +390,7 @@ def run(ctx):
                 for tr in TRAILERS[1:]:
                     decoder_side(ctx, dec, msg, cell, {}, tr)
                 decoder_short(ctx, dec, msg, cell)
+                decoder_wrong_total(ctx, dec, msg, cell)
     # random richer messages (multi-subset, compressed, long section 2)
     k = 0
     quota = 150 if ctx.quick else 2500
